@@ -135,7 +135,7 @@ def real_update_fw(gw, nids, fwt, fwv, image):
     import asyncio
     path = None
     if image is not None:
-        if not (isinstance(image, bytes) and 0 < len(image) <= 8192):
+        if not (isinstance(image, bytes) and len(image) <= 8192):
             gw.tasks.ota.make_update(nids, fwt, fwv, image)
             return
         from intelhex import IntelHex
@@ -143,6 +143,8 @@ def real_update_fw(gw, nids, fwt, fwv, image):
         ihex.frombytes(image)
         fd, path = tempfile.mkstemp(prefix="verif-fw-", suffix=".hex")
         with os.fdopen(fd, "w", encoding="utf-8") as fh:
+            # an image of no bytes is a syntactically valid file without data (just the end-of-file
+            # record): update_fw must treat it as "no firmware" and do nothing
             ihex.write_hex_file(fh)
     try:
         if asyncio.iscoroutinefunction(gw.update_fw):
@@ -360,6 +362,10 @@ def op_wire(op):
     if k == "U":
         _, nids, fwt, fwv, image = op
         nid = ",".join(map(str, nids)) if nids else "-"
+        if image is not None and len(image) == 0:
+            # a firmware file without data: Tasks.update_fw returns before make_update; in the model that
+            # is an update that names no node and brings no image (a no-op for every state)
+            return f"U - {fwt} {fwv} -"
         return f"U {nid} {fwt} {fwv} " + ("-" if image is None else (image.hex() or "e"))
     if k == "T":
         return f"T {op[1]}"
@@ -524,7 +530,7 @@ def gen_history(rng, version, n, persist=False, ota=True, sleep=True, malformed=
         elif kind == "update":
             nids = [known_node() for _ in range(rng.choice([1, 1, 2]))]
             fwt, fwv = rng.choice([(1, 1), (1, 2), (2, 1), (65535, 65535), (70000, 1), (1, -1)])
-            img = rng.choice(images) if rng.random() < 0.8 else None
+            img = rng.choice(images) if rng.random() < 0.8 else rng.choice([None, None, None, b""])
             hist.append(("U", nids, fwt, fwv, img))
         elif kind == "stream":
             node = known_node()
